@@ -195,6 +195,8 @@ ARG_SHAPES = {
     # tuple SUBCLASSES are not values: they travel by reference and keep their type, fields and methods
     "namedtuple": lambda: V.Point(1, 2), "tuple-subclass": lambda: V.TupleSub((1, 2)),
     "tuple-with-namedtuple": lambda: (0, V.Point(3, 4)),
+    # a class is a callable like any other - also when an instance of it has been seen on the connection before
+    "class": lambda: Inst, "instance-then-its-class": lambda: (Inst(), Inst), "class-then-an-instance": lambda: (Inst, Inst()),
 }
 
 
@@ -220,6 +222,9 @@ def describe(x, touch):
         if touch:
             x.bump()
         return ("inst", x.attr)
+    if cname == "type" and getattr(x, "__name__", None) == "Inst":
+        made = x()
+        return ("class", describe(made, touch), isinstance(made, x))
     if cname == "Point":
         return ("point", x.x, x.y, len(x), describe(x._replace(x=5)[0], False))
     if cname == "TupleSub":
